@@ -2,6 +2,7 @@ import Driver.Song
 import Ctrmml.Model.MdsConv
 import Ctrmml.Model.MdsPlatform
 import Ctrmml.Spec.Timeline
+import Ctrmml.Spec.SeqWf
 namespace Driver.ConvD
 open Ctrmml Ctrmml.Mds Ctrmml.Player Driver Tables
 
@@ -159,5 +160,45 @@ def judgeC02 (arg impl : String) : String :=
           | [] => "ok"
           | x :: _ => "fail " ++ x
 
-def handlers : List Driver.Handler := [{ cmd := "conv", model := model, judge := judgeC02 }]
+/-- C03 oracle on the real bytes: every stream decodes instruction by instruction inside the
+chunk with balanced loops, break offsets onto the instruction after the loop end, a terminator at
+depth 0 and a loop-back target on a depth-0 boundary; interpreting every channel (loop-back
+followed twice) ends without reading outside the chunk and passes at least one tick per round. -/
+def judgeC03 (arg impl : String) : String :=
+  match parseReq arg with
+  | none => "skip"
+  | some r =>
+    if r.unmodelled then "skip" else
+    if impl.startsWith "err:" then "ok" else   -- not accepted: outside the quantifier
+    if impl.startsWith "exc:" then "fail non-input-error exception " ++ impl else
+    let countsOk := r.song.tracks.all fun (_, t) => t.all fun e =>
+      e.type ≠ ev_LOOP_END || (decide (1 ≤ e.param) && decide (e.param ≤ 255))
+    if !countsOk then "skip" else
+    match (field impl "seq=").bind bytesOfHexNat with
+    | none => "fail no sequence"
+    | some seq =>
+      let nSubs := match field impl "subs=" with
+        | some "-" => 0
+        | some s => (s.splitOn "|").length
+        | none => 0
+      match SeqWf.checkAll seq nSubs with
+      | .error m => "fail " ++ m
+      | .ok _ =>
+        match Seq.tracksOf seq with
+        | none => "fail header unreadable"
+        | some (base, ts) =>
+          let res := ts.filterMap fun (id, start) =>
+            let (got, stop) := Seq.run seq base 2 300000 8000000 { pc := start }
+            if stop == .tooManyTicks ∨ stop == .fuel then none
+            else if stop != .finished then some s!"track {id}: interpreter stopped with {repr stop}"
+            else match SeqWf.ticksBetweenLoops got with
+              | some 0 => some s!"track {id}: the loop-back jump spans no note or rest time"
+              | _ => none
+          match res with
+          | [] => "ok"
+          | x :: _ => "fail " ++ x
+
+def handlers : List Driver.Handler :=
+  [{ cmd := "conv", model := model, judge := judgeC02 },
+   { cmd := "convwf", model := model, judge := judgeC03 }]
 end Driver.ConvD
